@@ -155,8 +155,9 @@ func (buf *bufferer) Destroy() {
 func (buf *bufferer) recoverExistingChunks() {
 	numChunks := 0
 
+	existingChunks := buf.chunkMan.ScanChunks()
 RECOVERY_LOOP:
-	for _, chunk := range buf.chunkMan.ScanChunks() {
+	for _, chunk := range existingChunks {
 		select {
 		case buf.inputChannel <- chunk:
 			buf.chunkMan.OnChunkInputRecovered(chunk)
@@ -164,6 +165,8 @@ RECOVERY_LOOP:
 			numChunks++
 		default:
 			buf.logger.Warnf("too many chunk files, skip id=%s", chunk.ID)
+			// the skipped files stay in the directory until a later start: they still count against the space limit
+			buf.chunkMan.OnChunksSkipped(existingChunks[numChunks:])
 			break RECOVERY_LOOP
 		}
 	}
